@@ -69,6 +69,24 @@ func genCommand(c *Ctx) {
 			c.Emit("join/exh", WList(WStr("join"), WStr(base), WStrs(l)), WStr(string(command.Command(base).Join(l...))))
 		}
 	}
+	// 2b. non-ASCII text: cased letters of every kind (upper, title case, letter-like numbers and symbols),
+	// lower-case and caseless text, pairs that only differ by case folding, and invalid UTF-8
+	uni := []string{"é", "É", "ß", "ẞ", "σ", "ς", "Σ", "ǅ", "ǆ", "Ǆ", "ᾈ", "Ⅳ", "ⅳ", "Ⓐ", "ⓐ", "İ", "ı", "K", "Ω", "ω", "Ω",
+		"ほ", "げ", "𐐀", "𐐨", "Ａ", "ａ", "\ufffd", "\xff", "\xc3", "\xc0\xaf", "\xed\xa0\x80", "\xf4\x90\x80\x80", "\xe2\x82", "β", "ϐ", "θ", "ϑ"}
+	for _, u := range uni {
+		for _, s := range []string{"/" + u, "/a/" + u, "/" + u + "/b", "/a" + u + "b", u, "/" + u + "/"} {
+			c.Emit("parse/unicode", WList(WStr("parse"), WStr(s)), cmdParseObs(s))
+		}
+	}
+	folds := [][2]string{{"σ", "ς"}, {"β", "ϐ"}, {"θ", "ϑ"}, {"k", "K"}, {"ω", "Ω"}, {"é", "É"}, {"ß", "ẞ"}, {"i", "ı"}, {"s", "ſ"}}
+	for _, f := range folds {
+		for _, pr := range [][2]string{{"/x" + f[0], "/x" + f[1]}, {"/x" + f[0], "/x" + f[1] + "/y"}, {"/" + f[0] + "/a", "/" + f[1] + "/a/b"},
+			{"/" + f[0], "/" + f[0] + "/y"}, {"/" + f[0], "/" + f[0] + f[1]}} {
+			for _, ab := range [][2]string{pr, {pr[1], pr[0]}} {
+				c.Emit("covers/unicode", WList(WStr("covers"), WStr(ab[0]), WStr(ab[1])), WBool(command.Command(ab[0]).Covers(command.Command(ab[1]))))
+			}
+		}
+	}
 	// 4. random ASCII
 	n := 20000
 	if c.Thorough() {
